@@ -9,6 +9,7 @@ import BqVerif.Proofs.CircBatch
 import BqVerif.Proofs.CircSem
 import BqVerif.Proofs.CircUnfoldSem
 import BqVerif.Proofs.CircUnfoldAll
+import BqVerif.Proofs.CircBatchUnfoldSem
 /-! # C04 — Circuit editing calls have their documented effect on program order -/
 namespace BqVerif.C04
 open BqVerif.Circ
@@ -391,5 +392,42 @@ theorem C04_insert_circuit_timeline (c sub : Circ) (loc : List Nat) (k : Nat)
     rw [List.mem_map] at hy
     obtain ⟨x, hx, rfl⟩ := hy
     exact hv x hx) q
+
+/-- **batch_unfold keeps the unitary**, for ANY list of points: under the hypotheses of
+`C04_unfold_same_unitary` lifted to the whole circuit (hereditarily well-formed table, blocks of the
+circuit standing on the radixes of their bodies), the circuit after `batch_unfold(points)` — whether
+the call completed or stopped with an error after having unfolded some of the blocks, whatever
+`seekOp` returned — satisfies `Inv`, still fits the table, and denotes what it denoted before.
+(Every step of the fold is an `unfold` at SOME point: it either fails before touching the circuit
+or replaces a block by its body, `unfold_any_point`.) -/
+theorem C04_batch_unfold_same_unitary {M : Type} [Monoid M] (sem : Op → M)
+    (hcomm : ∀ a b, Indep a b → sem a * sem b = sem b * sem a) (b : Blocks) (hb : b.HF)
+    (hblock : ∀ o inner, expandOp b o = some inner → sem o = den sem inner)
+    (c : Circ) (hinv : c.Inv) (hfit : Fits b c) (pts : List (Int × Int)) :
+    (c.batchUnfold b pts).1.Inv ∧ Fits b (c.batchUnfold b pts).1 ∧
+      den sem (c.batchUnfold b pts).1.iter = den sem c.iter :=
+  batchUnfold_same_den sem hcomm b hb hblock c hinv hfit pts
+
+/-- one step of it: `unfold(point)` at ANY point keeps `Inv`, the fitting and the unitary -/
+theorem C04_unfold_any_point_same_unitary {M : Type} [Monoid M] (sem : Op → M)
+    (hcomm : ∀ a b, Indep a b → sem a * sem b = sem b * sem a) (b : Blocks) (hb : b.HF)
+    (hblock : ∀ o inner, expandOp b o = some inner → sem o = den sem inner)
+    (c : Circ) (hinv : c.Inv) (hfit : Fits b c) (p : Int × Int) :
+    (c.unfold b p).1.Inv ∧ Fits b (c.unfold b p).1 ∧
+      den sem (c.unfold b p).1.iter = den sem c.iter :=
+  unfold_any_point sem hcomm b hb hblock c hinv hfit p
+
+-- non-vacuity (the table of the `unfold_all` example is `HF`, shown above): a fitting circuit with
+-- two blocks in one cycle that `batch_unfold` really unfolds, the second one after a shift
+example :
+    let body : Circ := ⟨[2, 2], [[⟨1, [], [0], [2]⟩], [⟨6, [], [0, 1], [2, 2]⟩]]⟩
+    let b : Blocks := [(1000, body)]
+    let c : Circ := ⟨[2, 2, 2, 2], [[⟨1000, [], [0, 1], [2, 2]⟩, ⟨1000, [], [3, 2], [2, 2]⟩]]⟩
+    c.invB = true ∧ (c.ops.all fun o => match b.body? o.gid with
+        | some bd => bd.radixes == o.rad
+        | none => true) = true ∧
+      c.batchUnfold b [(0, 3), (0, 0)] =
+        (⟨[2, 2, 2, 2], [[⟨1, [], [3], [2]⟩], [⟨1, [], [0], [2]⟩],
+          [⟨6, [], [3, 2], [2, 2]⟩, ⟨6, [], [0, 1], [2, 2]⟩]]⟩, .ok ()) := by decide
 
 end BqVerif.C04
